@@ -85,6 +85,7 @@ type PureFunc struct {
 }
 
 type Lemma struct {
+	Induct string
 	Uses  []string
 	Name  string
 	Cl    Clause
@@ -214,11 +215,16 @@ func (cs *Contracts) parseFile(path string) error {
 				uses = splitTop(name[j+6:])
 				name = strings.TrimSpace(name[:j])
 			}
+			induct := ""
+			if j := strings.Index(name, " induct "); j > 0 {
+				induct = strings.TrimSpace(name[j+8:])
+				name = strings.TrimSpace(name[:j])
+			}
 			e, err := parseExprAt(strings.TrimSpace(rest[i+1:]), where)
 			if err != nil {
 				return err
 			}
-			cs.Lemmas = append(cs.Lemmas, &Lemma{Name: name, Cl: Clause{Text: strings.TrimSpace(rest[i+1:]), Expr: e, Prop: prop, Line: where}, Axiom: word == "axiom", Prop: prop, Uses: uses})
+			cs.Lemmas = append(cs.Lemmas, &Lemma{Name: name, Cl: Clause{Text: strings.TrimSpace(rest[i+1:]), Expr: e, Prop: prop, Line: where}, Axiom: word == "axiom", Prop: prop, Uses: uses, Induct: induct})
 			cur = nil
 		case "func", "extern":
 			key, params, results, err := parseHeader(rest, where)
